@@ -318,6 +318,16 @@ func validURL(u *url.URL) bool {
 	return u != nil && len(u.Scheme) > 0 && len(u.Host) > 0
 }
 
+func countOf(l []string, s string) int {
+	n := 0
+	for _, v := range l {
+		if v == s {
+			n++
+		}
+	}
+	return n
+}
+
 func stripFragment(u string) string {
 	p := strings.Index(u, "#")
 	if p <= 0 {
@@ -366,14 +376,7 @@ func irisEqual(i1, i2 IRI, checkScheme bool) bool {
 			return false
 		}
 		for _, uqvv := range uqv {
-			eq := false
-			for _, uwqvv := range uwqv {
-				if uwqvv == uqvv {
-					eq = true
-					continue
-				}
-			}
-			if !eq {
+			if countOf(uqv, uqvv) != countOf(uwqv, uqvv) {
 				return false
 			}
 		}
